@@ -69,6 +69,7 @@ impl C15 {
             sets.push((l, format!("F4+İẞ<={}", k), extra, 0, k));
             sets.push((l, format!("exotic28<={}", tier.pick(3, 4)), exotic(), 0, if n >= 6 { tier.pick(3, 4) } else { 3 }));
             sets.push((l, format!("F7-numerics<={}", tier.pick(5, 6)), fam7(l), 0, tier.pick(5, 6)));
+            sets.push((l, format!("F8-latin1<={}", tier.pick(4, 5)), fam8(l), 0, tier.pick(4, 5)));
             // every composable pair of the language on its own: base, mark, a neutral consonant, space
             for (b, m, _) in frozen_inventory(l) {
                 let c = if l.is_cyrillic() { 'т' } else { 't' };
